@@ -7,7 +7,13 @@ mod c01;
 mod c02;
 mod c03;
 mod c03cli;
+mod c04;
+mod c05;
 mod c06;
+mod c07;
+mod c07cli;
+mod c09;
+mod prog;
 mod cli;
 mod fnplane;
 mod gen;
@@ -85,6 +91,22 @@ fn main() {
         "C03" => {
             c03::run(&rep);
             (c03::RULE, true, vec![A_REF, A_FN, A_CLI])
+        }
+        "C04" => {
+            c04::run(&rep);
+            (c04::RULE, false, vec![A_REF, "loads identify the address through a position-dependent memory pattern (a wrong address agrees by chance with probability 2^-8 per byte case)"])
+        }
+        "C05" => {
+            c05::run(&rep);
+            (c05::RULE, false, vec![A_REF, "push sp / pop sp and word accesses at offset 0xFFFF are judged against documented accept-sets"])
+        }
+        "C07" => {
+            c07::run(&rep);
+            (c07::RULE, false, vec![A_REF, A_CLI, "REP loops are driven with the driver's REPEAT protocol, bounded by CX+3 issues"])
+        }
+        "C09" => {
+            c09::run(&rep);
+            (c09::RULE, false, vec![A_CLI, "panics are observed with catch_unwind in process and as exit status 101/134/signal for the binary; overflow checks and debug assertions are on in both builds"])
         }
         "C06" => {
             c06::run(&rep);
